@@ -12,20 +12,20 @@ fn len_of(v: Option<&Vec<ReactorHandle>>) -> usize { match v { Some(v) => v.len(
 fn id_at(v: Option<&Vec<ReactorHandle>>, j: usize) -> SystemCommand { v.unwrap()[j].sys_command() }
 #[allow(dead_code)] fn dbg_list(v: Option<&Vec<ReactorHandle>>) -> Vec<u32> { match v { Some(v) => v.iter().map(|x| x.sys_command().0.index()).collect(), None => Vec::new() } }
 
-/// the list `after` == `before` with the FIRST occurrence of `target` removed (all other entries in order); no occurrence => equal.
+/// the list `after` == `before` minus ONE occurrence of `target` (none if it does not occur), compared as MULTISETS:
+/// the properties do not promise an order among the reactors of one trigger, so a harmless reordering must not alarm.
+fn count_in(v: Option<&Vec<ReactorHandle>>, x: SystemCommand) -> usize { let n = len_of(v); let mut c = 0; let mut j = 0; while j < n { if id_at(v, j) == x { c += 1; } j += 1; } c }
+fn count_arr(v: &[SystemCommand], x: SystemCommand) -> usize { let mut c = 0; let mut j = 0; while j < v.len() { if v[j] == x { c += 1; } j += 1; } c }
 fn assert_first_removed(before: &[SystemCommand], after: Option<&Vec<ReactorHandle>>, target: SystemCommand) {
     let n = before.len();
-    let mut first = n;
-    let mut i = 0;
-    while i < n { if first == n && before[i] == target { first = i; } i += 1; }
-    if first == n {
-        assert!(len_of(after) == n, "revoke_*: an id that is not in the list => list unchanged");
-        let mut j = 0;
-        while j < n { assert!(id_at(after, j) == before[j], "revoke_*: an id that is not in the list => list unchanged"); j += 1; }
-    } else {
-        assert!(len_of(after) == n - 1, "revoke_*: exactly one entry (the first of the revoked id) is removed from the named list");
-        let mut j = 0;
-        while j + 1 < n { let s = if j < first { j } else { j + 1 }; assert!(id_at(after, j) == before[s], "revoke_*: the entries other than the first one of the revoked id stay, in order"); j += 1; }
+    let occurs = count_arr(before, target);
+    if occurs == 0 { assert!(len_of(after) == n, "revoke_*: an id that is not in the list => list unchanged"); }
+    else { assert!(len_of(after) == n - 1, "revoke_*: exactly one entry of the revoked id is removed from the named list"); }
+    assert!(count_in(after, target) == (if occurs == 0 { 0 } else { occurs - 1 }), "revoke_*: exactly one entry of the revoked id is removed (a second registration of the same reactor stays)");
+    let mut j = 0;
+    while j < n {
+        if before[j] != target { assert!(count_in(after, before[j]) == count_arr(before, before[j]), "revoke_*: the entries of every other reactor stay"); }
+        j += 1;
     }
 }
 fn assert_single(after: Option<&Vec<ReactorHandle>>, target: SystemCommand, what: &'static str) {
@@ -35,8 +35,8 @@ fn assert_single(after: Option<&Vec<ReactorHandle>>, target: SystemCommand, what
 fn one(t: SystemCommand) -> Vec<ReactorHandle> { let mut v = Vec::with_capacity(1); v.push(h(t)); v }
 
 // ---------------------------------------------------------------------------------------------------------------
-// K.cache.revoke.<table>: revoke_X(key, id) deletes exactly the FIRST entry of `id` from the list under `key` of table X;
-// the other entries of that list keep their order; every other key and every other table is untouched; revoking an id
+// K.cache.revoke.<table>: revoke_X(key, id) deletes exactly ONE entry of `id` from the list under `key` of table X;
+// all other entries of that list stay (multiset comparison); every other key and every other table is untouched; revoking an id
 // or key that is not there changes nothing (C06; C01: neighbours keep working).
 // Shape: list length L, every content (ids symbolic); a neighbour key (simple tables; for the TypeId-keyed ones only at L<=1 - CBMC cost) / the two sibling lists of the same
 // component (component table) hold one entry with the SAME id.
@@ -164,14 +164,18 @@ fn revoke_contract<const TABLE: u8, const L: usize, const NEIGH: bool>()
 // ===============================================================================================================
 // K.dispatch.*: what a trigger queues (C01, C05, C14).  The schedule_* systems are called directly as functions with the
 // assumed Commands / Query / Res of the stub; the queued commands are read back from the command queue (typed).
-// Contract: queued ReactionCommands = one per entity-scoped registration of (target entity, this reaction type), in list
-// order, followed by one per type-wide registration of this type, in list order; each names the right source/target,
+// Contract: queued ReactionCommands = one per entity-scoped registration of (target entity, this reaction type) plus one per
+// type-wide registration of this type (compared as a MULTISET: no order among reactors is promised); each names the right source/target,
 // reaction type and reactor; for events: ONE payload entity is spawned first whose reader counter equals the number of
 // queued readers, and nothing at all is queued or spawned when there is no listener.
 // ===============================================================================================================
 use bevy::ecs::world::CommandQueue;
 use crate::react::react_component::verif_contracts::Val;
 
+/// multiset equality of the first n (<= 2) entries
+fn same_multiset(a: &[SystemCommand; 2], b: &[SystemCommand; 2], n: usize) -> bool {
+    match n { 0 => true, 1 => a[0] == b[0], _ => (a[0] == b[0] && a[1] == b[1]) || (a[0] == b[1] && a[1] == b[0]) }
+}
 fn er_with(entries: &[(EntityReactionType, SystemCommand)]) -> EntityReactors {
     let mut er = EntityReactors::default();
     let mut i = 0;
@@ -214,18 +218,23 @@ fn entity_event_contract<const S: usize, const W: usize, const HAS_ER: bool>() {
         let sp = sp.unwrap();
         assert!(crate::react::commands::verif_contracts::counter_value(&sp.bundle.0) == n, "schedule_entity_event_reaction: the reader counter equals the number of queued readers");
         let d = sp.entity;
+        let mut got = [SystemCommand(Entity::PLACEHOLDER); 2];
         let mut k = 0;
         while k < n {
             let c = queue.verif_peek::<ReactionCommand>(1 + k);
             assert!(c.is_some(), "schedule_entity_event_reaction: one EntityEvent command per matching registration");
-            let expect = if k < S { scoped[k] } else { wide[k - S] };
             match c.unwrap() {
-                ReactionCommand::EntityEvent{ target: t, data_entity, reactor } =>
-                    assert!(*t == target && *data_entity == d && *reactor == expect, "schedule_entity_event_reaction: commands name the event's target, its payload entity and the registered reactor (scoped first, then type-wide, in list order)"),
+                ReactionCommand::EntityEvent{ target: t, data_entity, reactor } => {
+                    assert!(*t == target && *data_entity == d, "schedule_entity_event_reaction: commands name the event's target and its payload entity");
+                    got[k] = *reactor;
+                }
                 _ => assert!(false, "schedule_entity_event_reaction: queues EntityEvent commands"),
             }
             k += 1;
         }
+        let mut want = [SystemCommand(Entity::PLACEHOLDER); 2];
+        let mut k = 0; while k < n { want[k] = if k < S { scoped[k] } else { wide[k - S] }; k += 1; }
+        assert!(same_multiset(&got, &want, n), "schedule_entity_event_reaction: exactly the registered reactors are scheduled (entity-scoped for this target and type-wide), each once per registration");
     }
     core::mem::forget(er); core::mem::forget(queue); core::mem::forget(cache); core::mem::forget(world);
 }
@@ -273,18 +282,23 @@ fn entity_reaction_contract<const MUTATION: bool, const S: usize, const W: usize
     let n = if HAS_COMP { S + W } else { 0 };
     if !HAS_COMP { assert!(queue.verif_pending() == 0, "schedule_insertion_reaction: nothing is queued for an entity that does not carry the component (not inserted / despawned before apply)"); }
     assert!(queue.verif_pending() == n, "schedule_insertion/mutation_reaction: exactly one command per matching registration (entity-scoped of this kind + type-wide of this kind), nothing else");
+    let mut got = [SystemCommand(Entity::PLACEHOLDER); 2];
     let mut k = 0;
     while k < n {
         let c = queue.verif_peek::<ReactionCommand>(k);
         assert!(c.is_some(), "schedule_insertion/mutation_reaction: queues EntityReaction commands");
-        let expect = if k < S { scoped[k] } else { wide[k - S] };
         match c.unwrap() {
-            ReactionCommand::EntityReaction{ reaction_source, reaction_type, reactor } =>
-                assert!(*reaction_source == entity && *reaction_type == rt && *reactor == expect, "schedule_insertion/mutation_reaction: commands name the changed entity, this reaction kind and component type, and the registered reactor"),
+            ReactionCommand::EntityReaction{ reaction_source, reaction_type, reactor } => {
+                assert!(*reaction_source == entity && *reaction_type == rt, "schedule_insertion/mutation_reaction: commands name the changed entity, this reaction kind and component type");
+                got[k] = *reactor;
+            }
             _ => assert!(false, "schedule_insertion/mutation_reaction: queues EntityReaction commands"),
         }
         k += 1;
     }
+    let mut want = [SystemCommand(Entity::PLACEHOLDER); 2];
+    let mut k = 0; while k < n { want[k] = if k < S { scoped[k] } else { wide[k - S] }; k += 1; }
+    assert!(same_multiset(&got, &want, n), "schedule_insertion/mutation_reaction: exactly the registered reactors are scheduled (entity-scoped for this entity and type-wide), each once per registration");
     assert!(cache.reaction_commands_buffer.len() == 0, "schedule_insertion/mutation_reaction: the scratch buffer is left empty");
     core::mem::forget(er); core::mem::forget(queue); core::mem::forget(cache); core::mem::forget(world);
 }
